@@ -239,7 +239,7 @@ def run(ctx):
             keep = [engine]  # keep every engine alive so that ids are not reused
             ops = []
             for _ in range(nops):
-                op = rnd.choice(["inputs", "inputs", "process", "process", "process", "restart", "copy", "edit", "toggle"])
+                op = rnd.choice(["inputs", "inputs", "refill", "process", "process", "process", "restart", "copy", "edit", "toggle"])
                 ops.append(op)
                 try:
                     if op == "inputs":
@@ -247,6 +247,12 @@ def run(ctx):
                         rows = E.rows(rnd, spec, n)
                         for k, v in enumerate(engine.input_variables):
                             v.value = float(rows[0][k]) if n == 1 else np.array([r[k] for r in rows])
+                    elif op == "refill":  # the same input arrays, refilled in place (identity-keyed caches would go stale)
+                        for k, v in enumerate(engine.input_variables):
+                            if isinstance(v.value, np.ndarray) and v.value.ndim == 1 and not v.lock_range and v.value.flags.writeable:
+                                v.value[:] = [r[k] for r in E.rows(rnd, spec, v.value.size)]
+                                ctx.hit("event:input arrays refilled in place")
+                        engine.process()
                     elif op == "process":
                         engine.process()
                     elif op == "restart":
@@ -289,4 +295,4 @@ def run(ctx):
             mon.fresh = {}
         probe.report(ctx)
         reach.report(ctx)
-    ctx.require("hook:Engine.process", "hook:Engine.restart", "hook:Engine.copy", "compare:process vs fresh engine", "compare:restart", "compare:copy", "compare:edit isolation", "graph:objects walked")
+    ctx.require("hook:Engine.process", "hook:Engine.restart", "hook:Engine.copy", "compare:process vs fresh engine", "compare:restart", "compare:copy", "compare:edit isolation", "graph:objects walked", "event:input arrays refilled in place", "event:toggle and restore")
